@@ -219,6 +219,58 @@ fn enrich(rng: &mut Rng, rec: &mut WorldRecords) {
             }
         }
     }
+    // surfaces / forms with characters that mean something to a CSV reader: a leading '#', leading and
+    // trailing blanks, quotes, separators of other CSV dialects (the rows stay plain, unreferenced words)
+    if rng.chance(1, 3) {
+        const SPECIAL: [&str; 10] = ["#", "#あ", " a", "a ", "a\"b", "a,b", "a;b", "a\tb", "'a'", "# 注"];
+        for _ in 0..1 + rng.below(3) {
+            let sp = SPECIAL[rng.below(SPECIAL.len())];
+            if rec.system.entries.iter().any(|x| x.surface == sp) {
+                continue;
+            }
+            let mut e = rec.system.entries[0].clone();
+            e.surface = sp.to_string();
+            e.headword = if rng.chance(1, 2) { sp.to_string() } else { format!("{}見出し", sp) };
+            e.reading = if rng.chance(1, 2) { sp.to_string() } else { "#ヨミ".to_string() };
+            e.norm = sp.to_string();
+            e.dic_form = None;
+            e.split_a.clear();
+            e.split_b.clear();
+            e.word_structure.clear();
+            e.split_type = "A".into();
+            e.escape = false;
+            // anywhere, also as the very first row: later numeric references are re-pointed below
+            if rng.chance(1, 2) {
+                rec.system.entries.push(e);
+            } else {
+                let at = rng.below(rec.system.entries.len() + 1);
+                rec.system.entries.insert(at, e);
+                let bump = |r: &mut WordRef| {
+                    if r.dic == 0 && r.index >= at {
+                        r.index += 1;
+                    }
+                };
+                for x in rec.system.entries.iter_mut() {
+                    x.split_a.iter_mut().for_each(bump);
+                    x.split_b.iter_mut().for_each(bump);
+                    x.word_structure.iter_mut().for_each(bump);
+                    if let Some(d) = x.dic_form.as_mut() {
+                        bump(d);
+                    }
+                }
+                for u in rec.users.iter_mut() {
+                    for x in u.entries.iter_mut() {
+                        x.split_a.iter_mut().for_each(bump);
+                        x.split_b.iter_mut().for_each(bump);
+                        x.word_structure.iter_mut().for_each(bump);
+                        if let Some(d) = x.dic_form.as_mut() {
+                            bump(d);
+                        }
+                    }
+                }
+            }
+        }
+    }
     for u in rec.users.iter_mut() {
         // word structure of user words may name user words too
         for e in u.entries.iter_mut() {
